@@ -95,6 +95,54 @@ theorem pool_repeat_equal {β : Type} (F : List Nat → β) (mk : Nat → Stream
       all_goals (cases s <;> simp_all [step, Src.usesGlobal])
   rw [key p h ⟨0, 0, globCur, []⟩ ⟨0, 0, globCur', []⟩ rfl rfl rfl]
 
+/-! ### `check_random_state` seen from the caller -/
+
+/-- the per-call generator of the draw-site model is the one `check_random_state` returns -/
+theorem ownStream_eq_checkRandomState (mk : Nat → Stream) (seed : Seed) (mult : Nat) (g : Stream) (c : Nat) :
+    ownStream mk seed mult g c = (checkRandomState mk seed (some mult) g c).stream := by
+  cases seed <;> rfl
+
+/-- **With a multiplier, a given `random_state` is never handed out and never advanced**: the generator returned
+is a new object, and a caller-owned instance stands where it stood — for every multiplier (1 included). -/
+theorem crs_private (mk : Nat → Stream) (seed : Seed) (mult : Nat) (g : Stream) (c : Nat)
+    (hs : seed.given = true) :
+    (checkRandomState mk seed (some mult) g c).shared = false ∧
+    ∀ st cur, seed = .inst st cur → (checkRandomState mk seed (some mult) g c).callerCur = cur := by
+  cases seed with
+  | none => cases hs
+  | int n => exact ⟨rfl, fun _ _ h => by cases h⟩
+  | inst st cur => exact ⟨rfl, fun _ _ h => by cases h; rfl⟩
+
+/-- … and what it returns is a function of `(random_state, multiplier)` alone -/
+theorem crs_deterministic (mk : Nat → Stream) (seed : Seed) (mult : Nat) (g g' : Stream) (c c' : Nat)
+    (hs : seed.given = true) :
+    (checkRandomState mk seed (some mult) g c).stream = (checkRandomState mk seed (some mult) g' c').stream := by
+  cases seed with
+  | none => cases hs
+  | int n => rfl
+  | inst st cur => rfl
+
+/-- **Any number of repetitions of a pool query return the result of the first**, with `random_state` a
+caller-owned instance: by induction over the number of calls, using that each call leaves the instance where
+it was. -/
+theorem repeat_all_equal {β : Type} (F : List Nat → β) (mk : Nat → Stream) (st : Stream) (mult : Nat)
+    (argS g : Stream) (globCur : Nat) (p : List Src) (n cur : Nat) :
+    ∀ r ∈ repeatQueries F mk st mult argS g globCur p n cur,
+      r = (poolQuery F mk (.inst st cur) mult argS g globCur p).1 := by
+  induction n with
+  | zero => intro r hr; simp [repeatQueries] at hr
+  | succ n ih =>
+    intro r hr
+    simp only [repeatQueries, List.mem_cons] at hr
+    rcases hr with rfl | hr
+    · rfl
+    · exact ih r hr
+
+/-- Handing the caller's instance itself to the method breaks this already for two calls and one draw (the seeded
+change `R3B` — a shortcut for multiplier 1 — and the repaired `SingleAnnotatorWrapper._query_annotators` did this). -/
+theorem shared_instance_counterexample :
+    repeatQueriesShared id (fun i => i) (fun _ => 0) (fun _ => 0) 0 [.own] 2 0 = [[0], [1]] := by decide
+
 /-- Without a seed the statement is false in the model as in the code (`random_state=None` draws
 from the global generator): the hypothesis `seed.given` is needed. -/
 theorem unseeded_counterexample :
